@@ -73,6 +73,8 @@ func verifPseudo() (common.Pseudoanonymizer, *verifStorage) {
 	if err != nil {
 		panic("pseudoanonymizer")
 	}
+	// bound: the regenerate-on-collision loop runs 2 (thorough: 3) times instead of 10; its body is the same
+	p.(*pseudoanonymizer).dataGenerationLoopLimit = 2 + verif.Tier()
 	return p, st
 }
 
@@ -83,7 +85,11 @@ func VerifC10_ConsistentTokens() {
 	p, st := verifPseudo()
 	ctxA := common.TokenContext{ClientID: []byte("A")}
 	ctxB := common.TokenContext{ClientID: []byte("B")}
-	n := verif.Choose("n", 1, 2)
+	hi := 1 // one-byte values make token collisions (and the retry paths they trigger) likely
+	if verif.Tier() == 1 {
+		hi = 2
+	}
+	n := verif.Choose("n", 1, hi)
 	v1 := verif.Bytes("v1", n)
 	v2 := verif.Bytes("v2", n)
 	verif.Assume(!verif.Eq(v1, v2))
